@@ -38,9 +38,9 @@ def parse_observe(line):
     return units, classes, order
 
 
-def gen_history_case(rng, length, with_invalid=True, queries=True):
-    g = HistGen(rng, with_invalid=with_invalid)
-    steps = g.history(length)
+def gen_history_case(rng, length, with_invalid=True, queries=True, refless_script=False):
+    g = HistGen(rng, with_invalid=with_invalid, refless_derived=.3, split_items=.4)
+    steps = g.history(length, refless_script=refless_script)
     ops, meta = [["observe"]], [dict(kind="observe0")]
     for st in steps:
         ops.append(st["op"])
